@@ -51,6 +51,54 @@ Theorem C11_spec_remove_value : forall (m : gmap Z Z) v k' v',
 Proof. exact spec_remove_value_lookup. Qed.
 Print Assumptions C11_spec_remove_value.
 
+(* Every reachable reference state is injective (stated on the reference alone). *)
+Theorem C11_spec_injective : forall ops sp, spec_run ops = Some sp -> Forall injective sp.
+Proof. exact spec_run_injective. Qed.
+Print Assumptions C11_spec_injective.
+
+(* The effect of each operation, in terms of the observers only and at full
+   strength (what changes, and that nothing else does; [st' = <[h:=b']> st]
+   says that every other handle is untouched).
+   Add(k,v): k now maps to v and v to k; a key that was paired with v and a
+   value that was paired with k lose their pair; everything else is as before. *)
+Theorem C11_add_effect : forall ops h k v st',
+  run (ops ++ [OAdd h k v]) = Ok st' ->
+  exists st b b', run ops = Ok st /\ st !! h = Some b /\ st' = <[h:=b']> st /\ st' !! h = Some b' /\
+  (forall k', GetForward b' k' =
+     if decide (k' = k) then (v, true)
+     else if decide (GetForward b k' = (v, true)) then (0, false) else GetForward b k') /\
+  (forall v', GetReverse b' v' =
+     if decide (v' = v) then (k, true)
+     else if decide (GetReverse b v' = (k, true)) then (0, false) else GetReverse b v').
+Proof. exact run_add_effect. Qed.
+Print Assumptions C11_add_effect.
+
+(* RemoveForward(k) deletes the whole pair of k from both directions, nothing else. *)
+Theorem C11_remove_forward_effect : forall ops h k st',
+  run (ops ++ [ORemoveForward h k]) = Ok st' ->
+  exists st b b', run ops = Ok st /\ st !! h = Some b /\ st' = <[h:=b']> st /\ st' !! h = Some b' /\
+  (forall k', GetForward b' k' = if decide (k' = k) then (0, false) else GetForward b k') /\
+  (forall v', GetReverse b' v' = if decide (GetReverse b v' = (k, true)) then (0, false) else GetReverse b v').
+Proof. exact run_remove_forward_effect. Qed.
+Print Assumptions C11_remove_forward_effect.
+
+(* RemoveReverse(v) deletes the whole pair of v from both directions, nothing else. *)
+Theorem C11_remove_reverse_effect : forall ops h v st',
+  run (ops ++ [ORemoveReverse h v]) = Ok st' ->
+  exists st b b', run ops = Ok st /\ st !! h = Some b /\ st' = <[h:=b']> st /\ st' !! h = Some b' /\
+  (forall v', GetReverse b' v' = if decide (v' = v) then (0, false) else GetReverse b v') /\
+  (forall k', GetForward b' k' = if decide (GetForward b k' = (v, true)) then (0, false) else GetForward b k').
+Proof. exact run_remove_reverse_effect. Qed.
+Print Assumptions C11_remove_reverse_effect.
+
+(* Clear leaves no pair in either direction. *)
+Theorem C11_clear_effect : forall ops h st',
+  run (ops ++ [OClear h]) = Ok st' ->
+  exists st b b', run ops = Ok st /\ st !! h = Some b /\ st' = <[h:=b']> st /\ st' !! h = Some b' /\
+  (forall k', GetForward b' k' = (0, false)) /\ (forall v', GetReverse b' v' = (0, false)) /\ Len (Some b') = 0.
+Proof. exact run_clear_effect. Qed.
+Print Assumptions C11_clear_effect.
+
 (* Every observer of every handle agrees with the reference state m of that
    handle: GetForward is the look-up in m (zero value and false when absent),
    GetReverse v finds the unique key paired with v (zero and false when there is
@@ -177,6 +225,7 @@ Proof. vm_compute. repeat split. Qed.
 Example C11_check_case_discriminates :
   let good := Obs [ZB 0 false; ZB 0 true] [ZB 1 true; ZB 0 false] [false; true] [true; false] 1 [ZZ 1 0] 1 [ZZ 1 0] in
   let bad := Obs [ZB 0 false; ZB 0 true] [ZB 0 false; ZB 0 false] [false; true] [true; false] 1 [ZZ 1 0] 1 [ZZ 1 0] in
-  check_case (Case [0; 1] 0 [] [St (CAdd 0 1 0) [H 0 good]]) = true /\
-  check_case (Case [0; 1] 0 [] [St (CAdd 0 1 0) [H 0 bad]]) = false.
-Proof. vm_compute. split; reflexivity. Qed.
+  check_case (Case [0; 1] 0 [] [St (CAdd 0 1 0) [H 0 good]] [St (CClear 0) []; St (CAdd 0 1 0) [H 0 good]]) = true /\
+  check_case (Case [0; 1] 0 [] [St (CAdd 0 1 0) [H 0 bad]] []) = false /\
+  check_case (Case [0; 1] 0 [] [] [St (CAdd 0 1 0) [H 0 good]; St (CAdd 0 1 0) [H 0 bad]]) = false.
+Proof. vm_compute. repeat split. Qed.
